@@ -127,4 +127,58 @@ structure XHttp where
     (which never reads the nested list) -/
 def XHttp.flatten (h : XHttp) : HttpRule := { primary := h.primary, additional := h.additional.map (·.1) }
 
+/-! ### message DEFINITIONS and a history of resolutions
+
+`Method.Input` / `Method.Output` are not names but message factories: `bridgedesc.DynamicMessage(md.Input())` wraps the
+descriptor the registry OF THIS RESOLUTION has for the method's type.  A history of resolutions (re-polls of one target,
+resolutions of other targets in the same process) therefore delivers, at every step, the definitions of that step. -/
+
+abbrev Fields := List (Name × Nat)            -- field name, kind
+abbrev Defs := List (Name × Fields)           -- message full name ↦ its fields, per descriptor set
+
+def lookupDef (d : Defs) (n : Name) : Option Fields := (d.find? (fun e => e.1 == n)).map (·.2)
+
+/-- a method as delivered, with what `Input.New()` / `Output.New()` build -/
+structure TypedMethod where
+  method : Method
+  inputDef : Option Fields
+  outputDef : Option Fields
+  deriving DecidableEq, Repr
+
+/-- `parseMethodDescriptor`: `DynamicMessage(md.Input())`, `DynamicMessage(md.Output())` — descriptors of the registry
+    just built from `defs` -/
+def typeMethod (defs : Defs) (m : Method) : TypedMethod :=
+  { method := m, inputDef := lookupDef defs m.input, outputDef := lookupDef defs m.output }
+
+structure HStep where
+  files : List XFile
+  defs : Defs
+  wanted : List Name
+
+/-- one resolution: registry, projection, message factories -/
+def deliverStep (s : HStep) : Except Err (List (Name × List TypedMethod)) :=
+  match parseFileDescriptorsX s.files s.wanted with
+  | .error e => .error e
+  | .ok t => .ok (t.services.map fun sv => (sv.name, sv.methods.map (typeMethod s.defs)))
+
+/-- the code: nothing is carried from one resolution to the next (bridgedesc has no package-level mutable state —
+    regenerated fact `c05PackageVars`) -/
+def deliverHistory (h : List HStep) : List (Except Err (List (Name × List TypedMethod))) := h.map deliverStep
+
+/-- the seeded regression C05-m11, for the negative witness only: message factories interned process-wide by full
+    name — the first definition ever seen for a name is used from then on -/
+def typeMethodInterned (cache defs : Defs) (m : Method) : TypedMethod :=
+  { method := m
+    inputDef := match lookupDef cache m.input with | some f => some f | none => lookupDef defs m.input
+    outputDef := match lookupDef cache m.output with | some f => some f | none => lookupDef defs m.output }
+
+def deliverHistoryInterned : Defs → List HStep → List (Except Err (List (Name × List TypedMethod)))
+  | _, [] => []
+  | cache, s :: rest =>
+    match parseFileDescriptorsX s.files s.wanted with
+    | .error e => .error e :: deliverHistoryInterned cache rest
+    | .ok t =>
+      .ok (t.services.map fun sv => (sv.name, sv.methods.map (typeMethodInterned cache s.defs))) ::
+        deliverHistoryInterned (cache ++ s.defs) rest
+
 end GB.C05
